@@ -164,6 +164,18 @@ class FuncView:
                     atoms(n.ast.test, lab == "T")
         return out
 
+    def symfacts(self, target):
+        """facts(target) plus each fact with its local names replaced by their reaching definitions at `target`
+        (`sel` -> `self.insels.fetch(tag)`), so a rule can name the condition by value instead of by variable"""
+        out = set(self.facts(target))
+        for f in list(out):
+            try:
+                e = ast.parse(f, mode="eval").body
+                out.add(src(self.sym(e, target)))
+            except Exception:
+                pass
+        return out
+
     def nodes(self, kind=None, pred=None):
         return [n for n in self.cfg.nodes if (kind is None or n.kind == kind)
                 and (pred is None or pred(n))]
